@@ -40,6 +40,7 @@ func (h *transportHandler) HandleLinkEstablished(lnk link.Link) {
 
 	// use MaybeAsync to avoid deadlocks if the transport author was not careful.
 	h.c.bcast.HoldLockMaybeAsync(func(broadcast func(), getWaitCh func() <-chan struct{}) {
+		defer verifOpDone()
 		execCtx := h.c.execCtx
 		if execCtx == nil {
 			le.Warn("link established while transport exited, closing link")
@@ -87,6 +88,7 @@ func (h *transportHandler) HandleLinkEstablished(lnk link.Link) {
 // HandleLinkLost is called when a link is lost.
 func (h *transportHandler) HandleLinkLost(lnk link.Link) {
 	h.c.bcast.HoldLockMaybeAsync(func(broadcast func(), getWaitCh func() <-chan struct{}) {
+		defer verifOpDone()
 		// fast path: clear by uuid
 		// check that the entry is this link: a newer link with the same uuid may
 		// have replaced it, and a late loss of the old link must not remove it.
